@@ -232,7 +232,9 @@ var $internalize = (v, t, recv, seen, makeWrapper) => {
             return parseInt(v) >>> 0;
         case $kindInt64:
         case $kindUint64:
-            return new t(0, v);
+            // Documented as parseInt(obj); numbers are taken as they are so that values such
+            // as 1e21 are not truncated to their first digits.
+            return new t(0, typeof v === "number" ? v : parseInt(v));
         case $kindFloat32:
             return $fround($parseFloat(v));
         case $kindFloat64:
